@@ -910,6 +910,12 @@ func ruleResolverSpec(r *Run) {
 						if strings.HasSuffix(calleeName(ci.Common()), "introspection.hasDeprecatedDirective") {
 							filters = true
 						}
+						// the directive looked up by name right here: Directives.ForName("deprecated")
+						for _, a := range ci.Common().Args {
+							if k, ok := a.(*ssa.Const); ok && k.Value != nil && k.Value.Kind() == constant.String && constant.StringVal(k.Value) == "deprecated" {
+								filters = true
+							}
+						}
 						if sc := ci.Common().StaticCallee(); sc != nil && inModule(sc) {
 							if g := r.P.declared(sc); g != nil && !isResolver[g] && g.Blocks != nil && callsDeprecatedTest(g) {
 								filters = true
@@ -1028,9 +1034,22 @@ func ruleResolverSpec(r *Run) {
 				}
 				carried := false
 				for i, e := range phi.Edges {
-					if loop[b.Preds[i]] && e != ssa.Value(phi) {
-						carried = true
+					if !loop[b.Preds[i]] || e == ssa.Value(phi) {
+						continue
 					}
+					// the position of a hand-written index loop (`i++`)
+					if bo, ok := e.(*ssa.BinOp); ok && bo.Op == token.ADD && bo.X == ssa.Value(phi) {
+						if _, isC := bo.Y.(*ssa.Const); isC {
+							continue
+						}
+					}
+					// only what was worked out from the selected field itself can leak from one
+					// field into the next (its arguments); a value computed from the schema alone
+					// and kept for the next round (sorted type names) is a memo
+					if !dependsOnSelection(e, loop, 0) {
+						continue
+					}
+					carried = true
 				}
 				if !carried {
 					continue
@@ -1044,7 +1063,102 @@ func ruleResolverSpec(r *Run) {
 			}
 		}
 	}
+	// the same through a variable whose address is taken (`ir.boolArgument(f, name, &flag)`
+	// with flag declared above the loop): a cell made outside the loop, written inside it from
+	// the selected field, and not reset at the top of every round
+	for _, rs := range resolvers {
+		var swBlock *ssa.BasicBlock
+		for _, b := range rs.sw.cases {
+			swBlock = b
+			break
+		}
+		if swBlock == nil {
+			continue
+		}
+		loop := innermostLoop(swBlock)
+		if loop == nil {
+			continue
+		}
+		for _, ins := range allInstrs(rs.fn) {
+			al, ok := ins.(*ssa.Alloc)
+			if !ok || loop[al.Block()] {
+				continue
+			}
+			if _, basic := al.Type().Underlying().(*types.Pointer).Elem().Underlying().(*types.Basic); !basic {
+				continue
+			}
+			writtenIn, readIn, reset := false, false, false
+			for _, ref := range *al.Referrers() {
+				if !loop[ref.Block()] {
+					continue
+				}
+				switch x := ref.(type) {
+				case *ssa.Store:
+					if x.Addr == ssa.Value(al) {
+						if _, isC := x.Val.(*ssa.Const); isC {
+							// a constant stored at the top of the round resets it
+							hdrSucc := false
+							for b := range loop {
+								for _, p := range b.Preds {
+									if !loop[p] {
+										for _, s2 := range b.Succs {
+											if loop[s2] && (s2 == x.Block() || s2.Dominates(x.Block())) && x.Block().Dominates(swBlock) {
+												hdrSucc = true
+											}
+										}
+									}
+								}
+							}
+							reset = reset || hdrSucc
+						} else {
+							writtenIn = true
+						}
+					}
+				case *ssa.UnOp:
+					readIn = true
+				case ssa.CallInstruction:
+					writtenIn = true // its address is handed to a call inside the loop
+				}
+			}
+			if writtenIn && readIn && !reset {
+				r.Bad("R11e.scope", fnName(rs.fn), "variable `"+al.Comment+"` carried between sibling fields", r.P.pos(al.Pos()),
+					"the loop over the selected fields of "+rs.def.Name+" writes `"+al.Comment+"` (declared above the loop) from one selected field and reads it for the next: what was evaluated for one field (an argument such as includeDeprecated) also decides the answer of its siblings")
+			}
+		}
+	}
 	r.AtLeast("R11e.scope", "selection loops of the introspection resolvers", nLoops, 5)
+}
+
+// dependsOnSelection: the value is computed (also) from the element of the selection loop —
+// something loaded through the loop's own position, or the result of a call that was handed
+// such a thing.
+func dependsOnSelection(v ssa.Value, loop map[*ssa.BasicBlock]bool, depth int) bool {
+	return dependsOnSelectionM(v, loop, map[ssa.Value]bool{})
+}
+
+func dependsOnSelectionM(v ssa.Value, loop map[*ssa.BasicBlock]bool, seen map[ssa.Value]bool) bool {
+	if v == nil || seen[v] {
+		return false
+	}
+	seen[v] = true
+	if phi, ok := v.(*ssa.Phi); ok && phi.Comment == "rangeindex" {
+		return true
+	}
+	if ex, ok := v.(*ssa.Extract); ok {
+		if _, isNext := ex.Tuple.(*ssa.Next); isNext {
+			return true
+		}
+	}
+	ins, ok := v.(ssa.Instruction)
+	if !ok || !loop[ins.Block()] {
+		return false
+	}
+	for _, op := range ins.Operands(nil) {
+		if *op != nil && dependsOnSelectionM(*op, loop, seen) {
+			return true
+		}
+	}
+	return false
 }
 
 // ruleIntrospectionSources (R13l, R3b): argument values are evaluated against the request
@@ -1186,6 +1300,45 @@ func ruleEnumTables(r *Run) {
 	for _, p := range r.P.Pkgs {
 		for _, f := range p.Syntax {
 			ast.Inspect(f, func(nd ast.Node) bool {
+				// `case A, B, C, …:` of a switch — an allow-list written as a switch clause
+				if cc, isCase := nd.(*ast.CaseClause); isCase && len(cc.List) >= 3 {
+					seenC := map[*types.Named]map[string]bool{}
+					for _, ex := range cc.List {
+						var obj types.Object
+						switch x := ex.(type) {
+						case *ast.SelectorExpr:
+							obj = p.TypesInfo.Uses[x.Sel]
+						case *ast.Ident:
+							obj = p.TypesInfo.Uses[x]
+						}
+						if c, ok := obj.(*types.Const); ok {
+							if nt, ok := c.Type().(*types.Named); ok && enums[nt] != nil {
+								if seenC[nt] == nil {
+									seenC[nt] = map[string]bool{}
+								}
+								seenC[nt][c.Name()] = true
+							}
+						}
+					}
+					for nt, have := range seenC {
+						all := enums[nt]
+						if len(all) < 12 || len(have)*4 < len(all)*3 {
+							continue // one clause of a dispatch over a small enumeration, or a deliberate subset
+						}
+						nTables++
+						var missing []string
+						for _, c := range all {
+							if !have[c.Name()] {
+								missing = append(missing, c.Name())
+							}
+						}
+						sort.Strings(missing)
+						r.Check(len(missing) == 0, rule, "package "+shortPkg(p.PkgPath), "switch clause of "+nt.Obj().Name()+" constants", r.P.pos(cc.Pos()),
+							fmt.Sprintf("lists all %d constants of the enumeration", len(all)),
+							fmt.Sprintf("one switch clause lists %d of the %d %s constants of gqlparser but not %s: whatever the clause admits, the missing ones are silently dropped or refused", len(have), len(all), nt.Obj().Name(), strings.Join(missing, ", ")))
+					}
+					return true
+				}
 				cl, ok := nd.(*ast.CompositeLit)
 				if !ok || len(cl.Elts) < 3 {
 					return true
@@ -1232,10 +1385,27 @@ func ruleEnumTables(r *Run) {
 					}
 					seen[nt][c.Name()] = true
 				}
+				// a membership set (map[K]bool / map[K]struct{}) over a small enumeration is a
+				// predicate with a deliberate subset ("kinds that have members"); a translation
+				// table, a list, or a set over a large enumeration that stops one short is not
+				isSet := false
+				if tv, ok := p.TypesInfo.Types[cl]; ok && tv.Type != nil {
+					if mt, ok := tv.Type.Underlying().(*types.Map); ok {
+						switch et := mt.Elem().Underlying().(type) {
+						case *types.Basic:
+							isSet = et.Kind() == types.Bool
+						case *types.Struct:
+							isSet = et.NumFields() == 0
+						}
+					}
+				}
 				for nt, have := range seen {
 					all := enums[nt]
 					if len(all) < 3 || len(have)*4 < len(all)*3 {
 						continue // a deliberate subset
+					}
+					if isSet && len(all) < 12 {
+						continue
 					}
 					nTables++
 					var missing []string
